@@ -20,7 +20,7 @@ from typing import List, Optional, Tuple
 from .convsites import conversion_sites
 from .report import Ctx
 from .srcmodel import call_leaf, calls_in, const_str, contains, src, walk_local
-from .util import core_stmts, guard_chain, root_name, strip_not
+from .util import body_raises, branch_when, core_stmts, guard_chain, root_name, strip_not
 
 VALUE_NAMES = {"val", "value", "init_args"}
 
@@ -76,7 +76,7 @@ def run(ctx: Ctx) -> int:
                     if arm_tests and isinstance(arm_tests[0].test, ast.UnaryOp):
                         how = "the arm accepts list, tuple and set alike (its own output is a valid input)"
                 elif leaf in ("OrderedDict", "MappingProxyType"):
-                    accepts_dict = any(isinstance(x, ast.If) and "not isinstance(val, dict)" in ast.unparse(x.test) for x in walk_local(fn))
+                    accepts_dict = any(isinstance(x, ast.If) and ast.unparse(strip_not(x.test)[0]) == "isinstance(val, dict)" and body_raises(branch_when(x, False), ctx.noreturn) is not None for x in walk_local(fn))
                     unwrap = any(isinstance(x, ast.If) and "isinstance(val, MappingProxyType)" in ast.unparse(x.test) and any(isinstance(b, ast.Assign) and "dict(val)" in ast.unparse(b.value) for b in x.body) for x in walk_local(fn))
                     if leaf == "OrderedDict" and accepts_dict:
                         how = "an OrderedDict is a dict: accepted again by the arm's entry test"
